@@ -75,6 +75,9 @@ class DavSession:
         self.last_etag = {}    # (c, n) -> current etag string
         self.seen_etags = {}   # (c, n) -> [etag strings seen earlier]
         self.locked = set()
+        self.explicit = {}     # (slot, neutral property) -> value id set by an acknowledged instruction
+        self.coll_etag = {}    # slot -> the collection's own getetag (string) as last observed
+        self.seen_coll_etags = {}
         self._git_cache = {}
         self._light = {}
         self.events = []
@@ -263,11 +266,49 @@ class DavSession:
         ev = {"op": "Mk", "c": c, "kind": kind, "how": how, "mprops": mprops}
         return self._record(ev, resp, {"m": how, "path": path, "props": list(props)})
 
-    def delete_coll(self, c):
+    def cond_coll(self, spec, c):
+        """If-Match on a collection: classes relative to the collection's own getetag."""
+        if not spec:
+            return None, {"present": False, "star": False, "tags": []}
+        cur = self.coll_etag.get(c)
+        vals, tags, star = [], [], False
+        for cls in spec:
+            if cls == "star":
+                vals.append("*")
+                star = True
+                continue
+            if cls == "cur":
+                e = cur or '"never-existed"'
+            elif cls == "stale":
+                old = [x for x in self.seen_coll_etags.get(c, []) if x != cur]
+                e = old[-1] if old else '"stale-0000000000000000000000000000000000"'
+            elif cls == "other":     # the etag of one of its members / of another resource
+                oth = [v for (k, v) in sorted(self.last_etag.items()) if v != cur]
+                e = oth[0] if oth else '"other-000000000000000000000000000000000"'
+            elif cls == "unq":
+                vals.append((cur or '"x"').strip('"'))
+                continue
+            elif cls == "weak":
+                vals.append("W/" + (cur or '"x"'))
+                continue
+            else:
+                e = '"deadbeefdeadbeefdeadbeefdeadbeefdeadbeef"'
+            vals.append(e)
+            tags.append(self.E(e))
+        return ", ".join(vals), {"present": True, "star": star, "tags": sorted(set(tags))}
+
+    def delete_coll(self, c, im=None):
         path = self.slots[c] + "/"
-        resp = self.world.request("DELETE", path, [])
-        ev = {"op": "DeleteColl", "c": c}
-        return self._record(ev, resp, {"m": "DELETE", "path": path})
+        imh, imr = self.cond_coll(im, c)
+        cet = self.E(self.coll_etag[c]) if self.coll_etag.get(c) and c in (self.events[-1]["audit"]["colls"] if self.events else self.init_audit["colls"]) else 0
+        hdrs = [("If-Match", imh)] if imh is not None else []
+        resp = self.world.request("DELETE", path, hdrs)
+        ev = {"op": "DeleteColl", "c": c, "im": imr, "cet": cet}
+        ev = self._record(ev, resp, {"m": "DELETE", "path": path, "headers": hdrs})
+        if ev["resp"]["cls"] == "ok":
+            self.explicit = {k: v for k, v in self.explicit.items() if k[0] != c}
+            self.coll_etag.pop(c, None)
+        return ev
 
     def proppatch(self, c, p, value):
         """Set (value: str) or remove (value None) one collection property."""
@@ -296,6 +337,16 @@ class DavSession:
                 "pst": status.get(p) or 0,
                 "free": bool(v is not None and NEUTRAL.get(p, p) == "color" and not v.startswith("#"))}
                for (p, v) in ops]
+        # noop: the instruction sets the value an earlier acknowledged instruction of this session
+        # stored for that property (and nothing removed it since): a request that changes nothing
+        for x in ins:
+            key = (c, x["p"])
+            x["noop"] = bool(x["set"] and not x["free"] and self.explicit.get(key) == x["v"])
+            if x["pst"] == 200:
+                if x["set"] and not x["free"]:
+                    self.explicit[key] = x["v"]
+                else:
+                    self.explicit.pop(key, None)
         ev = {"op": "Proppatch", "c": c, "ins": ins}
         return self._record(ev, resp, {"m": "PROPPATCH", "path": path, "ops": [[p, v] for (p, v) in ops]})
 
@@ -507,6 +558,9 @@ class DavSession:
         v = me.text(DAV + "getetag")
         if v is not None:
             tagviews.append(self.T(v.strip('"')))
+            if self.coll_etag.get(c) not in (None, v):
+                self.seen_coll_etags.setdefault(c, []).append(self.coll_etag[c])
+            self.coll_etag[c] = v
         cur_token = me.text(DAV + "sync-token")
         props = {}
         for p, t in PROP_READ.items():
